@@ -44,10 +44,10 @@ def merge(rep, d):
     rep.extra["contract_times"] += d["extra"].get("contract_times", [])
 
 
-def run_contracts(rep, cmod_name, tier, seed, select=None, workers=16):
+def run_contracts(rep, cmod_name, tier, seed, select=None, workers=16, accept_props=None):
     cmod = importlib.import_module(cmod_name)
     jobs = [(rep.prop, cmod_name, i, tier, seed, (k, c.shards)) for i, c in enumerate(cmod.CONTRACTS)
-            if rep.prop in c.props and (select is None or select(c)) and (tier == "thorough" or c.tier != "thorough") for k in range(c.shards)]
+            if (rep.prop in c.props or (accept_props and set(accept_props) & set(c.props))) and (select is None or select(c)) and (tier == "thorough" or c.tier != "thorough") for k in range(c.shards)]
     jobs.sort(key=lambda j: -j[5][1])
     if os.environ.get("VERIF_SERIAL"):
         for j in jobs:
